@@ -52,6 +52,16 @@ CHECKS['C10'] = dict(text='Symbolic execution of the resolution fix-point over d
              'every declared type and field with its declared type, and that the not-terminating error lists exactly the unresolvable types.',
              note='graph size bounded (<= 4 types, <= 2 fields each, 2 modules); scalars pointer-width so layout never interferes; undefined names in function signatures / enum bases / extern values are covered by C05, C08 (base 9) and C15',
              design='4/C10')
+CHECKS['C11'] = dict(text='Symbolic execution of resolve_string / Module::scope for a name declared with distinct sizes in any subset of four modules (one nested), '
+             'with every sequence of up to 2 (thorough 3) type imports, module imports and a missing module, and for a built-in name: z3 proves the '
+             'field binds to the provider selected by the precedence chain (last type import, built-in, own module, imported modules in order) and that '
+             'the enclosing type has that provider\'s size; no provider <=> rejected.',
+             note='use-list length bounded; printed crate:: path in emitted code not executed', design='4/C11')
+CHECKS['C14'] = dict(text='Symbolic execution of add_module / add_item / the resolution loop on modules with every combination of a duplicate type or enum declaration, '
+             'a user type named like a generated vftable struct, an extern type of the same name and a same-named type in another module: z3 proves '
+             'accepted <=> no two declarations share an item path, and that each declared item is in its own module\'s definition set only.',
+             note='item level only: file names, directory creation, prologue/epilogue order and formatting (lib.rs::build, write_module) are file-system code outside the claim',
+             design='4/C14')
 NA = {}
 ALL = [json.loads(l)['id'] for l in open('properties.jsonl')]
 for p in ALL:
